@@ -50,8 +50,11 @@ type vNet[U, D any] struct {
 
 type vNetKey struct{}
 
-func vNewNet[U, D any](cctx context.Context) *vNet[U, D] {
-	n := &vNet[U, D]{cctx: cctx, up: make(chan *U, 64), down: make(chan *D, 64), hdrReady: make(chan struct{}), srvDone: make(chan struct{})}
+func vNewNet[U, D any](cctx context.Context, capacity int) *vNet[U, D] {
+	if capacity == 0 {
+		capacity = 64
+	}
+	n := &vNet[U, D]{cctx: cctx, up: make(chan *U, capacity), down: make(chan *D, capacity), hdrReady: make(chan struct{}), srvDone: make(chan struct{})}
 	// what a gRPC server does: the handler's context carries the caller's outgoing metadata as
 	// incoming metadata (plus whatever server interceptors put there: vNetKey stands for that)
 	sctx := context.WithValue(context.Background(), vNetKey{}, "interceptor-value")
@@ -111,8 +114,14 @@ func (e *vNetCli[U, D]) Send(m *U) error {
 		return errors.New("send after CloseSend")
 	}
 	e.n.upLog = append(e.n.upLog, m)
-	e.n.up <- m
-	return nil
+	select {
+	case e.n.up <- m:
+		return nil
+	case <-e.n.cctx.Done():
+		return status.FromContextError(e.n.cctx.Err()).Err()
+	case <-e.n.srvDone:
+		return io.EOF
+	}
 }
 func (e *vNetCli[U, D]) Recv() (*D, error) {
 	select {
@@ -152,8 +161,12 @@ func (e *vNetSrv[U, D]) Send(m *D) error {
 		return status.FromContextError(err).Err()
 	}
 	e.n.downLog = append(e.n.downLog, m)
-	e.n.down <- m
-	return nil
+	select {
+	case e.n.down <- m:
+		return nil
+	case <-e.n.sctx.Done():
+		return status.FromContextError(e.n.sctx.Err()).Err()
+	}
 }
 func (e *vNetSrv[U, D]) Recv() (*U, error) {
 	select {
@@ -177,10 +190,13 @@ type vE2EStub struct {
 	rev  *vNet[tunnelpb.ServerToClient, tunnelpb.ClientToServer]
 	done bool // the network server's handler has returned
 	herr error
+	// frames the carrier buffers per direction (0: 64, i.e. never full in these scenarios); a full
+	// carrier blocks the sender, as a real transport with its flow control does
+	capacity int
 }
 
 func (s *vE2EStub) OpenTunnel(ctx context.Context, opts ...grpc.CallOption) (grpc.BidiStreamingClient[tunnelpb.ClientToServer, tunnelpb.ServerToClient], error) {
-	n := vNewNet[tunnelpb.ClientToServer, tunnelpb.ServerToClient](ctx)
+	n := vNewNet[tunnelpb.ClientToServer, tunnelpb.ServerToClient](ctx, s.capacity)
 	s.fwd = n
 	verifGo("network-server", func() {
 		s.herr = s.svc.OpenTunnel(&vNetSrv[tunnelpb.ClientToServer, tunnelpb.ServerToClient]{n})
@@ -200,7 +216,7 @@ func (s *vE2EStub) OpenTunnel(ctx context.Context, opts ...grpc.CallOption) (grp
 }
 
 func (s *vE2EStub) OpenReverseTunnel(ctx context.Context, opts ...grpc.CallOption) (grpc.BidiStreamingClient[tunnelpb.ServerToClient, tunnelpb.ClientToServer], error) {
-	n := vNewNet[tunnelpb.ServerToClient, tunnelpb.ClientToServer](ctx)
+	n := vNewNet[tunnelpb.ServerToClient, tunnelpb.ClientToServer](ctx, s.capacity)
 	s.rev = n
 	verifGo("network-server", func() {
 		s.herr = s.svc.OpenReverseTunnel(&vNetSrv[tunnelpb.ServerToClient, tunnelpb.ClientToServer]{n})
@@ -481,7 +497,8 @@ func verifH_E2E() {
 	//  1 configuration: direction x flow control disabled on either end x shape x service x method-name form
 	//  2 events: direction x revision x shape x {caller cancels, tunnel closed} x when x who runs in between x handler outcome
 	//  3 endings: direction x how the tunnel ends x shape
-	group := verifChoice("group", 4)
+	//  4 graceful shutdown while the RPC is in flight: direction x streaming shape x when x handler outcome
+	group := verifChoice("group", 5)
 	if verifParam("groups")&(1<<group) == 0 {
 		return
 	}
@@ -493,12 +510,14 @@ func verifH_E2E() {
 		}
 		return false
 	}
-	reverse := inG(1, 2, 3) && verifBool("reverseTunnel")
+	reverse := inG(1, 2, 3, 4) && verifBool("reverseTunnel")
 	cliNoFC := (inG(1) || (inG(2) && verifParam("ilv") != 0)) && verifBool("rpcClientEndDisablesFlowControl")
 	srvNoFC := inG(1) && verifBool("rpcServerEndDisablesFlowControl")
 	shape := 0 // 0 unary (Invoke), 1 client-streaming, 2 server-streaming, 3 bidi
 	if inG(0, 1) || (inG(2) && verifParam("ilv") != 0) {
 		shape = verifChoice("shape", 4)
+	} else if inG(4) {
+		shape = 1 + verifChoice("streamingShape", 3)
 	} else if verifBool("bidi") {
 		shape = 3
 	}
@@ -540,7 +559,7 @@ func verifH_E2E() {
 			app.tlr = vE2EMD("tlr", "tk-bin")
 		}
 	}
-	if inG(0, 2) && verifBool("handlerFails") {
+	if inG(0, 2, 4) && verifBool("handlerFails") {
 		c := verifU32("code")
 		verifAssume(c >= 1 && c <= 16)
 		app.code = codes.Code(c)
@@ -563,7 +582,9 @@ func verifH_E2E() {
 			reqMD["grpc-timeout"] = []string{"7S"}
 		}
 	}
-	event, when := 0, 0 // event: 0 the RPC runs to completion, 1 the caller cancels, 2 the tunnel is closed under it
+	// event: 0 the RPC runs to completion, 1 the caller cancels, 2 the tunnel is closed under it,
+	// 3 graceful shutdown is initiated while the RPC is in flight (it must not change the RPC's outcome)
+	event, when := 0, 0
 	var interleave [4]bool // the peer gets to run between the application's operations, or not
 	if inG(2) {
 		event = 1 + verifChoice("event", 2)
@@ -578,6 +599,10 @@ func verifH_E2E() {
 				interleave = [4]bool{true, true, true, true}
 			}
 		}
+	}
+	if inG(4) {
+		event = 3
+		when = verifChoice("when", 3)
 	}
 	ending := 0
 	if inG(3) {
@@ -647,12 +672,25 @@ func verifH_E2E() {
 	var got [][]byte
 	var final error
 	finished := false
+	gracefulReturned := false
 	strike := func(at int) {
 		if event != 0 && when == at {
-			if event == 1 {
+			switch event {
+			case 1:
 				cancel()
-			} else {
+			case 2:
 				tch.Close()
+			case 3:
+				// the RPC is in flight on both ends (the peer has come to rest: the handler is running) ...
+				verifDrain()
+				verifAssert(len(app.calls) == 1, "C10.e2e-the-rpc-is-in-flight-when-shutdown-starts")
+				// ... when graceful shutdown is initiated
+				if reverse {
+					verifGo("graceful-stop", func() { rts.GracefulStop(); gracefulReturned = true })
+					verifDrain()
+				} else {
+					h.InitiateShutdown()
+				}
 			}
 		}
 		if interleave[at] {
@@ -726,7 +764,7 @@ func verifH_E2E() {
 		verifAssert(len(app.calls) == 1 && app.returns == 1, "C08.e2e-exactly-one-invocation-for-a-completed-call")
 		verifAssert(len(got) == len(app.responses), "C01.e2e-all-responses-delivered-on-ok")
 		verifAssert(app.sawEOF && len(app.reqs) == len(reqs), "C01.e2e-handler-saw-all-requests-and-end-of-stream")
-	} else if event == 0 {
+	} else if event == 0 || event == 3 {
 		handlerOutcome = true
 		verifCover("e2e-error-status")
 		verifAssert(app.code != codes.OK, "C02.e2e-error-only-when-the-handler-returned-one")
@@ -826,6 +864,24 @@ func verifH_E2E() {
 		verifAssert(c.Err() == nil && vChanOpenRO(c.Done()), "C03.e2e-the-tunnel-survives-the-rpc")
 	}
 
+	// ---- C10: the shutdown did not change the in-flight RPC's outcome (checked above, exactly as for an
+	// undisturbed RPC); every RPC started afterwards is refused, and the tunnel stays up
+	if event == 3 {
+		verifCover("e2e-shutdown")
+		verifAssert(len(app.calls) == 1 && app.returns == 1, "C10.e2e-in-flight-rpc-ran-to-completion")
+		late := &wrapperspb.BytesValue{}
+		lerr := ch.Invoke(context.Background(), "/a/u", &wrapperspb.BytesValue{Value: []byte{9}}, late)
+		verifAssert(status.Code(lerr) == codes.Unavailable, "C10.e2e-rpc-started-after-shutdown-is-refused-with-unavailable")
+		verifAssert(len(app.calls) == 1, "C10.e2e-refused-rpc-reaches-no-handler")
+		verifDrain()
+		verifAssert(c.Err() == nil && vChanOpenRO(c.Done()), "C10.e2e-the-tunnel-stays-up-during-graceful-shutdown")
+		if reverse {
+			verifAssert(!serveDone, "C10.e2e-serve-keeps-running-during-graceful-shutdown")
+			// the in-flight RPC has finished: GracefulStop is due to return
+			verifAssert(gracefulReturned, "C10.graceful-stop-returns-once-in-flight-rpcs-finished")
+		}
+	}
+
 	// ---- the tunnel ends
 	switch {
 	case event == 2:
@@ -844,6 +900,9 @@ func verifH_E2E() {
 	verifAssert(!vChanOpenRO(c.Done()), "C04.e2e-done-closed-after-the-tunnel-ended")
 	verifAssert(stub.done, "C04.e2e-network-server-handler-returned")
 	if reverse {
+		if event == 3 {
+			verifAssert(gracefulReturned, "C10.e2e-graceful-stop-returns-when-the-tunnel-is-gone")
+		}
 		verifAssert(serveDone && serveStarted, "C04.e2e-serve-returned")
 		verifAssert(len(h.AllReverseTunnels()) == 0 && !h.AsChannel().Ready(), "C12+C14.e2e-registry-empty-after-the-tunnel-ended")
 		if event != 2 && ending != 1 {
@@ -862,8 +921,207 @@ func verifH_E2E() {
 	// ---- C13 / C11 / C08: the wire
 	negotiated := true // both ends are this library: both advertise
 	if !reverse {
-		vE2EWire(stub.fwd.upLog, stub.fwd.downLog, negotiated, rev1, event != 0)
+		vE2EWire(stub.fwd.upLog, stub.fwd.downLog, negotiated, rev1, event == 1 || event == 2)
 	} else {
-		vE2EWire(stub.rev.downLog, stub.rev.upLog, negotiated, rev1, event != 0)
+		vE2EWire(stub.rev.downLog, stub.rev.upLog, negotiated, rev1, event == 1 || event == 2)
+	}
+}
+
+// S-E2E-HOL (C01 C03 C05 C06 C08 C13 C14): two RPCs share one whole tunnel (both ends real, flow
+// control negotiated, the carrier buffering only a few frames per direction). RPC A stalls: more
+// than a window of data is sent on it and its consumer reads nothing, so its sender is parked. RPC B,
+// started afterwards, must run to completion all the same (no head-of-line blocking, no deadlock
+// through the bounded carrier); when A's consumer then reads, everything arrives intact and in
+// order, the sender resumes and finishes, and the whole window is available again.
+func verifH_E2EHol() {
+	reverse := verifBool("reverseTunnel")
+	stalledSide := verifChoice("stalledConsumer", 2) // 0 the caller of A does not read, 1 the handler of A does not read
+	bPayload := verifBytes("bRequest", 3)
+	bTwice := verifBool("secondUnaryCall")
+	const nmsg, msgLen = 5, chunkMax // 5 x 16 KiB > the 64 KiB window
+	mk := func(i int) []byte {
+		b := append([]byte{byte(i + 1)}, make([]byte, msgLen-2)...)
+		return append(b, byte(0x80+i))
+	}
+	release := make(chan struct{})
+	var aSrv *tunnelServerStream
+	var aGot [][]byte
+	aSent, aHandlerDone, bCalls := 0, false, 0
+	var aHandlerErr error
+	hm := grpchan.HandlerMap{}
+	hm.RegisterService(&grpc.ServiceDesc{ServiceName: "a", HandlerType: (*any)(nil), Streams: []grpc.StreamDesc{{StreamName: "s", ClientStreams: true, ServerStreams: true,
+		Handler: func(srv any, st grpc.ServerStream) error {
+			aSrv, _ = st.(*tunnelServerStream)
+			defer func() { aHandlerDone = true }()
+			if stalledSide == 0 {
+				for i := 0; i < nmsg; i++ {
+					if err := st.SendMsg(&wrapperspb.BytesValue{Value: mk(i)}); err != nil {
+						aHandlerErr = err
+						return err
+					}
+					aSent++
+				}
+				<-release
+				return nil
+			}
+			<-release // reads nothing until released
+			for {
+				in := &wrapperspb.BytesValue{}
+				if err := st.RecvMsg(in); err != nil {
+					if err != io.EOF {
+						aHandlerErr = err
+					}
+					return nil
+				}
+				aGot = append(aGot, in.Value)
+			}
+		}}}}, &vSvcImpl{"a"})
+	hm.RegisterService(&grpc.ServiceDesc{ServiceName: "b.c", HandlerType: (*any)(nil), Methods: []grpc.MethodDesc{{MethodName: "u",
+		Handler: func(srv any, ctx context.Context, dec func(any) error, _ grpc.UnaryServerInterceptor) (any, error) {
+			bCalls++
+			in := &wrapperspb.BytesValue{}
+			if err := dec(in); err != nil {
+				return nil, err
+			}
+			return &wrapperspb.BytesValue{Value: append([]byte{0xEE}, in.Value...)}, nil
+		}}}}, &vSvcImpl{"b.c"})
+
+	h := NewTunnelServiceHandler(TunnelServiceHandlerOptions{})
+	stub := &vE2EStub{svc: h.Service(), capacity: verifParam("carrierCap")}
+	openCtx, openCancel := context.WithCancel(context.Background())
+	defer openCancel()
+	var ch grpc.ClientConnInterface
+	var tch TunnelChannel
+	var rts *ReverseTunnelServer
+	if !reverse {
+		h.handlers = hm
+		tc, err := NewChannel(stub).Start(openCtx)
+		verifAssume(err == nil)
+		ch, tch = tc, tc
+	} else {
+		rts = NewReverseTunnelServer(stub)
+		rts.handlers = hm
+		verifGo("serve", func() { _, _ = rts.Serve(openCtx) })
+		verifDrain()
+		all := h.AllReverseTunnels()
+		verifAssume(len(all) == 1)
+		tch, ch = all[0], h.AsChannel()
+	}
+	c := tch.(*tunnelChannel)
+	verifAssume(c.useRevision == tunnelpb.ProtocolRevision_REVISION_ONE)
+
+	// ---- RPC A stalls
+	a, err := ch.NewStream(context.Background(), &grpc.StreamDesc{ClientStreams: true, ServerStreams: true}, "/a/s")
+	verifAssert(err == nil, "C08.hol-rpc-a-starts")
+	if err != nil {
+		return
+	}
+	aCli := a.(*tunnelClientStream)
+	aCallerSent, aCallerDone := 0, false
+	var aCallerErr error
+	if stalledSide == 1 {
+		verifGo("caller-a-sender", func() {
+			for i := 0; i < nmsg; i++ {
+				if err := a.SendMsg(&wrapperspb.BytesValue{Value: mk(i)}); err != nil {
+					aCallerErr = err
+					break
+				}
+				aCallerSent++
+			}
+			aCallerDone = true
+		})
+	}
+	verifDrain()
+	if stalledSide == 0 {
+		verifAssert(aSent < nmsg && !aHandlerDone && aHandlerErr == nil, "C05+C06.hol-sender-is-parked-once-a-window-is-unread")
+		verifAssert(aSent >= 3, "C05.hol-sender-not-parked-before-the-window-is-used-up")
+	} else {
+		verifAssert(aCallerSent < nmsg && !aCallerDone, "C05+C06.hol-sender-is-parked-once-a-window-is-unread")
+		verifAssert(aCallerSent >= 3, "C05.hol-sender-not-parked-before-the-window-is-used-up")
+	}
+	verifCover("hol-stalled")
+
+	// ---- RPC B (and another one) must get through
+	nb := 1
+	if bTwice {
+		nb = 2
+	}
+	for k := 0; k < nb; k++ {
+		resp := &wrapperspb.BytesValue{}
+		berr := ch.Invoke(context.Background(), "/b.c/u", &wrapperspb.BytesValue{Value: bPayload}, resp)
+		verifAssert(berr == nil, "C03+C05.hol-rpc-on-the-same-tunnel-completes-while-another-is-stalled")
+		if berr == nil {
+			verifAssert(len(resp.Value) == len(bPayload)+1 && resp.Value[0] == 0xEE, "C01+C03.hol-response-belongs-to-the-right-rpc")
+			verifAssertBytesEq(resp.Value[1:], bPayload, "C01.hol-unary-payload-intact")
+		}
+	}
+	verifAssert(bCalls == nb, "C08.hol-one-invocation-per-unary-call")
+	verifDrain()
+	if stalledSide == 0 {
+		verifAssert(aSent < nmsg && !aHandlerDone, "C05.hol-stalled-sender-still-parked")
+	} else {
+		verifAssert(!aCallerDone, "C05.hol-stalled-sender-still-parked")
+	}
+
+	// ---- the consumer of A reads: the sender resumes and everything arrives
+	var aFinal error
+	if stalledSide == 0 {
+		var got [][]byte
+		for k := 0; k < nmsg; k++ {
+			m := &wrapperspb.BytesValue{}
+			if err := a.RecvMsg(m); err != nil {
+				aFinal = err
+				break
+			}
+			got = append(got, m.Value)
+		}
+		verifAssert(aFinal == nil && len(got) == nmsg, "C01+C05.hol-all-stalled-messages-arrive-once-the-consumer-reads")
+		for i, g := range got {
+			verifAssert(len(g) == msgLen && g[0] == byte(i+1) && g[msgLen-1] == byte(0x80+i), "C01.hol-stalled-messages-in-order-and-intact")
+		}
+		verifDrain()
+		verifAssert(aSent == nmsg, "C05.hol-sender-resumes-when-the-consumer-reads")
+		if aSrv != nil {
+			if ds, ok := aSrv.sender.(*defaultSender); ok {
+				verifAssert(ds.currentWindow.Load() == initialWindowSize, "C05.hol-whole-window-available-again-after-everything-was-read")
+			}
+		}
+		close(release)
+		_ = a.CloseSend()
+		m := &wrapperspb.BytesValue{}
+		aFinal = a.RecvMsg(m)
+		verifAssert(aFinal == io.EOF, "C01+C02.hol-stalled-rpc-ends-ok")
+	} else {
+		close(release)
+		verifDrain()
+		verifAssert(aCallerDone && aCallerErr == nil && aCallerSent == nmsg, "C05.hol-sender-resumes-when-the-consumer-reads")
+		if ds, ok := aCli.sender.(*defaultSender); ok {
+			verifAssert(ds.currentWindow.Load() == initialWindowSize, "C05.hol-whole-window-available-again-after-everything-was-read")
+		}
+		_ = a.CloseSend()
+		m := &wrapperspb.BytesValue{}
+		aFinal = a.RecvMsg(m)
+		verifAssert(aFinal == io.EOF, "C01+C02.hol-stalled-rpc-ends-ok")
+		verifAssert(len(aGot) == nmsg && aHandlerErr == nil, "C01+C05.hol-all-stalled-messages-arrive-once-the-consumer-reads")
+		for i, g := range aGot {
+			verifAssert(len(g) == msgLen && g[0] == byte(i+1) && g[msgLen-1] == byte(0x80+i), "C01.hol-stalled-messages-in-order-and-intact")
+		}
+	}
+	verifCover("hol-resumed")
+	verifDrain()
+	c.mu.RLock()
+	nstreams := len(c.streams)
+	c.mu.RUnlock()
+	verifAssert(nstreams == 0, "C14.hol-client-stream-table-empty")
+
+	// ---- the tunnel ends
+	tch.Close()
+	verifDrain()
+	verifAssert(stub.done, "C04.hol-network-server-handler-returned")
+	verifAssert(verifLiveGoroutines() == 0, "C14.hol-no-goroutine-left")
+	if !reverse {
+		vE2EWire(stub.fwd.upLog, stub.fwd.downLog, true, true, false)
+	} else {
+		vE2EWire(stub.rev.downLog, stub.rev.upLog, true, true, false)
 	}
 }
